@@ -3,6 +3,7 @@
 -/
 import PgVerif.Proofs.ScalarsRT
 import PgVerif.Proofs.ScalarsCal
+import PgVerif.Proofs.ScalarsFrac
 set_option linter.unusedSimpArgs false
 namespace PgVerif.Proofs.ScalarsRT
 open PgVerif PgVerif.Model.Scalars PgVerif.Spec.Scalars PgVerif.Txt PgVerif.Proofs.ScalarsCal
@@ -116,7 +117,9 @@ theorem decTimestamp_enc (t : TsV) (h : t.wf = true) : decTimestamp (le 8 (ofSig
     simp only [i64, uN_le1 8 _ (ofSigned_lt 64 _), ok_bind, pure_eq_ok, toSigned_ofSigned64 _ hin]
     have n1 : ¬ (TsV.fin y m d hh mi ss usec).stored = 9223372036854775807 := by rw [hst]; omega
     have n2 : ¬ (TsV.fin y m d hh mi ss usec).stored = -9223372036854775808 := by rw [hst]; omega
-    simp only [n1, n2, if_false, floorDiv_eq, hs, fmtUnix_ts y m d hh mi ss hv h1 h2 h3]
+    have hfr : (TsV.fin y m d hh mi ss usec).stored % 1000000 = ((usec : Nat) : Int) := by rw [hst]; omega
+    simp only [n1, n2, if_false, floorDiv_eq, ScalarsFrac.floorMod_eq, hfr, ScalarsFrac.fracSeconds_nat, hs,
+      fmtUnix_ts y m d hh mi ss hv h1 h2 h3]
     rfl
 
 end PgVerif.Proofs.ScalarsRT
